@@ -54,8 +54,27 @@ def run_case(ctx, case):
         base_sig = ("C07", rows, cols, case["nhist"], case.get("park"), case["keep"], case["hide"])
         prev = "fresh"
         frame = None
-        with w:
+        w.__enter__()
+        entered = True
+        try:
             for k, st in enumerate(case["steps"]):
+                if case.get("reenter_before") == k and k > 0:
+                    # the application leaves the context (suspend) and enters it again with the
+                    # same window object: a new context on a screen that holds output
+                    w.__exit__(None, None, None)
+                    entered = False
+                    alll = term.all_main_lines()
+                    if [list(r) for r in alll[:len(hist)]] != hist:
+                        ctx.judge(False, case, base_sig + ("exit", prev), "C07:exit", None, None,
+                                  ["content above the window changed when leaving the context"], True)
+                        return
+                    top_abs = len(term.scrollback) + term.y
+                    hist = [list(r) for r in alll[:top_abs]]
+                    w.__enter__()
+                    entered = True
+                    prev = "re-entered after " + prev
+                    frame = None
+                    ctx.count("re-entries")
                 vals, cells = [], []
                 for r in st["array"]:
                     v, c = row_value(r)
@@ -101,7 +120,7 @@ def run_case(ctx, case):
                     scr_row = top_abs + cp[0] - len(term.scrollback)
                     if scr_row >= 0 and (term.y, term.x) != (scr_row, cp[1]):
                         problems.append("cursor at %r, designated cell is %r" % ((term.y, term.x), (scr_row, cp[1])))
-                ctx.judge(not problems, case, sig, "C07:render",
+                ctx.judge(not problems, case, sig, "C07:render-after-re-entry" if prev.startswith("re-entered") else "C07:render",
                           [obs.show(r) for r in want_win], [obs.show(r) for r in win],
                           {"step": k, "problems": problems, "returned": ret, "top_screen_row": top_screen},
                           bool(cells))
@@ -111,6 +130,9 @@ def run_case(ctx, case):
                     hist = hist + [pad(c, cols) for c in cells[:ret]]
                     top_abs += ret
                 prev = repr(st["array"])
+        finally:
+            if entered:
+                w.__exit__(None, None, None)
         alll = term.all_main_lines()
         problems = []
         if [list(r) for r in alll[:len(hist)]] != hist:
@@ -156,6 +178,12 @@ def gen_case(rng, size=None, steps=6):
                 step["cursor"] = list(case["steps"][-1]["cursor"])
         case["steps"].append(step)
         prev = arr
+    if rng.random() < .25:
+        case["reenter_before"] = rng.randint(1, steps - 1)
+        if rng.random() < .5:
+            # the typical resume: the same frame is drawn again
+            k = case["reenter_before"]
+            case["steps"][k] = dict(case["steps"][k - 1], inplace=False)
     return case
 
 
